@@ -69,7 +69,7 @@ pub fn gen_text(rng: &mut Rng, mode: &str) -> Vec<u32> {
         "anychar" => {
             // scalar values from the WHOLE code space, not only the pools: the pipeline must treat a character by the
             // class the lookup gives it and by nothing else (about 250 distinct scalars reach it otherwise)
-            let special: [u32; 34] = [0x1C, 0x1D, 0x1E, 0x1F, 0x85, 0xA0, 0xAD, 0x34F, 0x61C, 0x180E, 0x2000, 0x200B, 0x200C, 0x200D, 0x200E,
+            let special: [u32; 45] = [0x0, 0x7F, 0x80, 0xD7FF, 0xE000, 0xFFFE, 0xFFFF, 0x10000, 0x10FFFD, 0x10FFFE, 0x10FFFF, 0x1C, 0x1D, 0x1E, 0x1F, 0x85, 0xA0, 0xAD, 0x34F, 0x61C, 0x180E, 0x2000, 0x200B, 0x200C, 0x200D, 0x200E,
                 0x200F, 0x2028, 0x2029, 0x202F, 0x205F, 0x2060, 0x2061, 0x2064, 0x206A, 0x206F, 0x3000, 0xFEFF, 0xFFF9, 0xFFFB, 0xFFFC, 0xFFFD,
                 0xE0001, 0xE007F, 0xE01EF];
             let n = rng.range(1, 14);
@@ -443,6 +443,48 @@ pub fn gen_text(rng: &mut Rng, mode: &str) -> Vec<u32> {
             let n = rng.range(2, 16);
             (0..n).map(|_| { let c = pick_class(rng, &w); *rng.pick(pool(c)) }).collect()
         }
+        "brk-order" => {
+            // nested pairs whose N0 results depend on the ORDER in which pairs are resolved (BD16: by the position of the
+            // opening bracket): the inner pair holds only the opposite direction, so it looks at the context before it
+            // — which is the outer opener, re-typed to the embedding direction if the outer pair was resolved first —
+            // and then 0..70 more openers, so that the 63-limit is hit after those pairs were found
+            let rtl = rng.chance(1, 2);
+            let (e_ch, o_ch) = if rtl { (0x5D0u32, 0x61u32) } else { (0x61, 0x5D0) };
+            let (k1, k2, k3) = (pick_bracket(rng), pick_bracket(rng), pick_bracket(rng));
+            let mut t = vec![e_ch, 0x20, o_ch];
+            t.push(OPEN_BRACKETS[k1]);
+            t.push(OPEN_BRACKETS[k2]);
+            t.push(o_ch + 1);
+            t.push(CLOSE_BRACKETS[k2]);
+            t.push(e_ch + 1);
+            t.push(CLOSE_BRACKETS[k1]);
+            let k = *rng.pick(&[0usize, 5, 61, 62, 63, 64, 64, 65, 66, 70]);
+            for _ in 0..k { t.push(OPEN_BRACKETS[k3]); }
+            if rng.chance(1, 3) { let cl = *rng.pick(&[L, R, EN]); t.push(pick_char(rng, cl)); }
+            for _ in 0..rng.range(0, 3) { t.push(CLOSE_BRACKETS[k3]); }
+            t
+        }
+        "deep-count" => {
+            // the overflow COUNTS of X5a-X7 around 256: the depth limit reached, then 250-300 further initiators of one
+            // kind left open, a letter, as many terminators, a letter, the terminators of the valid part, a letter
+            let iso = rng.chance(1, 3);
+            let mut t = vec![];
+            if iso { t.push(*rng.pick(&[LRI_C, RLI_C])); }
+            let fill = *rng.pick(&[LRE_C, RLE_C, LRE_C, LRO_C]);
+            for _ in 0..62 { t.push(fill); }
+            t.push(0x77);
+            let over = *rng.pick(&[250usize, 254, 255, 256, 256, 257, 258, 300]);
+            let kind = if iso { *rng.pick(&[LRI_C, RLI_C, FSI_C]) } else { *rng.pick(&[LRE_C, RLE_C, LRO_C, RLO_C]) };
+            for _ in 0..over { t.push(kind); }
+            t.push(*rng.pick(&[0x78u32, 0x5D0]));
+            let closing = (over + rng.range(0, 2)).saturating_sub(rng.range(0, 2));
+            for _ in 0..closing { t.push(if iso { PDI_C } else { PDF_C }); }
+            t.push(*rng.pick(&[0x79u32, 0x5D1, 0x31]));
+            for _ in 0..rng.range(58, 64) { t.push(PDF_C); }
+            if iso { t.push(PDI_C); }
+            t.push(*rng.pick(&[0x7Au32, 0x5D2]));
+            t
+        }
         "stale" => {
             // state that one iteration of a rule's loop must not hand to a much later one: an X9-removed character (or
             // an ET run, an NI run) early in the sequence, in a position where its type matters — inside a neutral run
@@ -743,8 +785,8 @@ fn line_case(rng: &mut Rng, modes: &[(&'static str, usize)]) -> (String, Input) 
     (mode, inp)
 }
 
-const MODES_ALL: [(&str, usize); 19] =
-    [("anychar", 4), ("edges", 2), ("manyparas", 1), ("removed", 1), ("short", 12), ("long", 4), ("iso", 6), ("deep", 2), ("brk", 4), ("sep", 4), ("words", 6), ("weak", 6), ("para", 4), ("max", 2), ("deep-paras", 1), ("stale", 3), ("n0", 8), ("deepiso", 1), ("siblings", 1)];
+const MODES_ALL: [(&str, usize); 21] =
+    [("anychar", 4), ("edges", 2), ("manyparas", 1), ("removed", 1), ("short", 12), ("long", 4), ("iso", 6), ("deep", 2), ("brk", 4), ("sep", 4), ("words", 6), ("weak", 6), ("para", 4), ("max", 2), ("deep-paras", 1), ("stale", 3), ("brk-order", 2), ("deep-count", 1), ("n0", 8), ("deepiso", 1), ("siblings", 1)];
 
 /// Exhaustive small scope (support for the thorough tier, never presented as proof): the `n`-th class
 /// sequence over `alphabet`, shortest first, crossed with the three base directions; representatives rotate.
@@ -888,8 +930,8 @@ pub fn gen_case(prop: &str, rng: &mut Rng, n: usize, thorough: bool) -> (String,
         "C07" if n == 0 => ("stress".into(), Input::Stress { n: 150_000 }),
         "C07" if n == 1 => ("stress".into(), Input::Stress { n: 300 }),
         "C07" => match rng.below(10) {
-            0..=3 => bidi_case(rng, &[("deep", 3), ("brk", 3), ("sep", 2), ("iso", 2), ("para", 2), ("short", 2), ("empty", 1), ("max", 2), ("removed", 2), ("siblings", 1)], true),
-            4..=8 => line_case(rng, &[("deep", 3), ("max", 4), ("brk", 2), ("sep", 3), ("iso", 2), ("para", 2), ("short", 2), ("removed", 2)]),
+            0..=3 => bidi_case(rng, &[("deep", 3), ("brk", 3), ("sep", 2), ("iso", 2), ("para", 2), ("short", 2), ("empty", 1), ("max", 2), ("removed", 2), ("siblings", 1), ("anychar", 3), ("deep-count", 1), ("brk-order", 1)], true),
+            4..=8 => line_case(rng, &[("deep", 3), ("max", 4), ("brk", 2), ("sep", 3), ("iso", 2), ("para", 2), ("short", 2), ("removed", 2), ("anychar", 2)]),
             _ => {
                 let m = pick_mode(rng, &[("iso", 2), ("para", 2), ("short", 1)]);
                 let t = gen_text(rng, m);
@@ -900,9 +942,9 @@ pub fn gen_case(prop: &str, rng: &mut Rng, n: usize, thorough: bool) -> (String,
         },
         "C08" => {
             if rng.chance(1, 2) {
-                bidi_case(rng, &[("sep", 3), ("weak", 3), ("brk", 2), ("short", 2), ("iso", 1), ("words", 2), ("n0", 4)], true)
+                bidi_case(rng, &[("sep", 3), ("weak", 3), ("brk", 2), ("short", 2), ("iso", 1), ("words", 2), ("n0", 4), ("deep", 1), ("deepiso", 1), ("max", 1), ("deep-count", 1), ("anychar", 1)], true)
             } else {
-                line_case(rng, &[("sep", 4), ("weak", 2), ("short", 2), ("words", 2), ("n0", 2), ("para", 2)])
+                line_case(rng, &[("sep", 4), ("weak", 2), ("short", 2), ("words", 2), ("n0", 2), ("para", 2), ("deep", 1), ("deepiso", 1), ("max", 1)])
             }
         }
         "C09" => {
@@ -942,7 +984,7 @@ pub fn gen_case(prop: &str, rng: &mut Rng, n: usize, thorough: bool) -> (String,
         }
         "C11" => {
             if rng.chance(2, 3) {
-                bidi_case(rng, &[("deep", 4), ("brk", 4), ("max", 2), ("deep-paras", 1)], false)
+                bidi_case(rng, &[("deep", 4), ("brk", 4), ("max", 2), ("deep-paras", 1), ("brk-order", 2), ("deep-count", 2)], false)
             } else {
                 line_case(rng, &[("deep", 3), ("max", 4), ("brk", 2)])
             }
@@ -1139,9 +1181,33 @@ pub fn gen_case(prop: &str, rng: &mut Rng, n: usize, thorough: bool) -> (String,
             let mut c2 = gen_text(rng, m2);
             c1.truncate(30);
             c2.truncate(30);
-            let init = *rng.pick(&[LRI_C, RLI_C]);
+            let mut init = *rng.pick(&[LRI_C, RLI_C]);
             let mut tag = "iso-swap";
-            match rng.below(8) {
+            let mut force_dir: Option<Dir> = None;
+            match rng.below(9) {
+                8 => {
+                    // the LAST valid initiator: with the paragraph level forced, the initiator sits at embedding level
+                    // exactly 124 (an RLI there is valid and takes 125, X5a) or 123 (either kind is valid)
+                    tag = "iso-swap-edge";
+                    let at124 = rng.chance(2, 3);
+                    let mut pre = vec![];
+                    if rng.chance(1, 2) {
+                        force_dir = Some(Dir::L0);
+                        for _ in 0..(if at124 { 62 } else { 61 }) { pre.push(*rng.pick(&[LRE_C, LRE_C, LRO_C])); }
+                        if !at124 { pre.push(RLE_C); }
+                    } else {
+                        force_dir = Some(Dir::L1);
+                        for _ in 0..61 { pre.push(*rng.pick(&[RLE_C, RLE_C, RLO_C])); }
+                        if at124 { pre.push(LRE_C); }
+                    }
+                    pre.push(*rng.pick(&[0x61u32, 0x5D0, 0x31, 0x20]));
+                    prefix = pre;
+                    init = if at124 { RLI_C } else { *rng.pick(&[LRI_C, RLI_C]) };
+                    c1 = vec![*rng.pick(&[0x61u32, 0x5D0, 0x627, 0x31, 0x661])];
+                    c2 = vec![*rng.pick(&[0x62u32, 0x5D1, 0x32, 0x21])];
+                    if rng.chance(1, 2) { c1.push(*rng.pick(&[0x61u32, 0x5D0, 0x20])); }
+                    suffix = vec![*rng.pick(&[0x5D1u32, 0x62, 0x20, 0x31]), *rng.pick(&[0x5D2u32, 0x63, 0x21])];
+                }
                 0 | 1 => {
                     // the pair is wrapped by an outer bracket pair with no strong character of its own inside
                     tag = "iso-swap-brk";
@@ -1249,7 +1315,8 @@ pub fn gen_case(prop: &str, rng: &mut Rng, n: usize, thorough: bool) -> (String,
                     }
                 }
             }
-            (tag.into(), Input::Meta13 { enc, dir: pick_dir(rng), prefix, init, c1, c2, suffix })
+            let dir = pick_dir(rng);
+            (tag.into(), Input::Meta13 { enc, dir: force_dir.unwrap_or(dir), prefix, init, c1, c2, suffix })
         }
         "C14" => match n {
             0 => ("table".into(), Input::Cls),
